@@ -49,6 +49,8 @@ def observers(v: str, cls: str, tagname: str) -> List[str]:
     out = [f"mon.write({v})", f'mon.write(f"{{{v}}}|")', f"d_{tagname} = {v}", f"mon.write(d_{tagname})", f"mon.write(idf({v}))" if cls != "str" else f"mon.write(tag({v}))"]
     if cls in ("int", "float"):
         out += [f"mon.write({v} * 2)", f"mon.write({v} + 0.25)"]
+        # a variable / helper result that STARTS as this value and then grows: the declared type must hold the sum
+        out += [f"acc_{tagname} = {v}", f"acc_{tagname} = acc_{tagname} + {v} + 2", f"mon.write(acc_{tagname})", f"ret_{tagname} = idf({v})", f"ret_{tagname} = ret_{tagname} * 3 + 1", f"mon.write(ret_{tagname})"]
     if cls == "str":
         out += [f'mon.write({v} + "!")', f"mon.write(len({v}))"]
     if cls == "bool":
@@ -359,6 +361,23 @@ def gen_topology(tier: str) -> Iterator[dict]:
             for k, arg in enumerate(args):
                 lines += [f"u{k} = {fname}({arg})", f"mon.write(u{k})", f"mon.write(u{k} + 0.25)"]
             yield {"id": f"T:rec:{rname}:{'|'.join(args)}", "space": "T", "src": common.script(HEAD + lines, None, prologue=PRO, defs=body), "runs": [{"passes": 0, "ar": {"A0": [6]}}]}
+    # recursion that hands its arguments on in another order / combination: every signature the recursion reaches needs
+    # its own variant
+    multi = {
+        "swap": (["def alt(p, q, n):", "    if n == 0:", "        return p", "    return alt(q, p, n - 1)"], "alt"),
+        "rotate": (["def rot(p, q, r, n):", "    if n == 0:", "        return p", "    return rot(q, r, p, n - 1)"], "rot"),
+        "mix": (["def mixr(p, q, n):", "    if n == 0:", "        return p + q", "    return mixr(q * 0.5, p + 1, n - 1)"], "mixr"),
+        "mutual_swap": (["def ping(p, q, n):", "    if n == 0:", "        return p", "    return pong(q, p, n - 1)", "def pong(p, q, n):", "    if n == 0:", "        return q", "    return ping(q, p, n - 1)"], "ping"),
+    }
+    arg_sets = {3: [("1", "2.5"), ("2.5", "1"), ("a", "0.5"), ("0.5", "a"), ("1", "2"), ("a * 0.5", "a")], 4: [("1", "2.5", "3"), ("2.5", "1", "a"), ("a", "a * 0.5", "2")]}
+    for mname, (body, fname) in multi.items():
+        arity = 4 if fname == "rot" else 3
+        for ai, args in enumerate(arg_sets[arity]):
+            for depths in (("3",), ("2", "3"), ("0", "1", "2", "3"), ("a - 4",)):
+                lines = []
+                for k, d in enumerate(depths):
+                    lines += [f"w{k} = {fname}({', '.join(args)}, {d})", f"mon.write(w{k})", f"mon.write(w{k} + 0.25)"]
+                yield {"id": f"T:recm:{mname}:{ai}:{'|'.join(depths)}", "space": "T", "src": common.script(HEAD + lines, None, prologue=PRO, defs=body), "runs": [{"passes": 0, "ar": {"A0": [6]}}]}
     for gi, (hval, sval, where) in enumerate(T_GLOBAL):
         defs = ["def push():", "    global level", f"    level = {hval}"]
         use = ["push()", "peak = level", "mon.write(peak)", "mon.write(peak + 0.25)"]
